@@ -39,8 +39,17 @@ quick=$(VERIF_REPO=$wt bin/verif check $id --tier quick 2>&1); qrc=$?
 qsig=$(echo "$quick" | grep -E "^  sig=" | head -2 | cut -c1-200 | tr '\n' '|' | tr '"' "'")
 trc=""; tsig=""
 if [ $qrc -ne 1 ]; then
-  thorough=$(VERIF_REPO=$wt bin/verif check $id --tier thorough 2>&1); trc=$?
-  tsig=$(echo "$thorough" | grep -E "^  sig=" | head -2 | cut -c1-200 | tr '\n' '|' | tr '"' "'")
+  if [ -n "$ADMIT_THOROUGH" ]; then
+    thorough=$(VERIF_REPO=$wt bin/verif check $id --tier thorough 2>&1); trc=$?
+    tsig=$(echo "$thorough" | grep -E "^  sig=" | head -2 | cut -c1-200 | tr '\n' '|' | tr '"' "'")
+  else
+    # cheaper second chance: two other seeds of the quick tier
+    for sd in 2 3; do
+      q2=$(VERIF_SEED=$sd VERIF_REPO=$wt bin/verif check $id --tier quick 2>&1); r2=$?
+      if [ $r2 -eq 1 ]; then trc=1; tsig="(quick, seed $sd) $(echo "$q2" | grep -E "^  sig=" | head -2 | cut -c1-200 | tr '\n' '|' | tr '"' "'")"; break; fi
+      trc=$r2
+    done
+  fi
 fi
 tag=$(echo "$wt" | md5sum | cut -c1-10); rm -rf .build/alt-$tag .build/harness-$tag*
 echo "$id$tv: demo_clean=$clean demo_patched=$patched suite(pass/unexpected_fail)=$suite quick_rc=$qrc thorough_rc=$trc rebased=$rebased"
